@@ -149,6 +149,10 @@ let () =
             | Some l when int_of_string l = !lineno ->
               let b = Buffer.create 1024 in print b (model_post !pre ctx op); Printf.printf "MODELPOST %s\n" (Buffer.contents b)
             | _ -> ());
+           (match Sys.getenv_opt "VERIF_METRICS" with
+            | Some _ ->
+              let b = Buffer.create 256 in print b (state_metrics ctx post); Printf.printf "METRICS %d %s\n" !lineno (Buffer.contents b)
+            | None -> ());
            let r = check_step !pre ctx op outcome post in
            let b = Buffer.create 64 in
            print b r;
